@@ -37,6 +37,9 @@ type GammaDistribution struct {
 /* -------------------------------------------------------------------------- */
 
 func NewGammaDistribution(alpha, beta Scalar) (*GammaDistribution, error) {
+  if math.IsNaN(alpha.GetFloat64()) || math.IsNaN(beta.GetFloat64()) {
+    return nil, fmt.Errorf("invalid parameters")
+  }
   if alpha.GetFloat64() <= 0.0 || beta.GetFloat64() <= 0.0 {
     return nil, fmt.Errorf("invalid parameters")
   }
